@@ -10,8 +10,8 @@ RULE = (
     "range) is run for one observable (F2, FL, F3, g1; NC/EM/CC; ZM-VFNS or FFNS; PTO 0..2) and contracted with a smooth PDF "
     "x^a(1-x)^b(1+cx); the grid-independent truth is the direct convolution of the recorded kernels with the analytic PDF (yadmon.quad, "
     "no basis code); the interpolation error eps(g) of each grid is measured from eko's basis on the PDF. Oracle: (i) |pred(g)-truth| <= "
-    "K_k eps(g) S + 1e-6 S for adequate grids (eps <= 1e-2), K_0=5, K_1=K_2=300; (ii) a drop of eps by >= 10 must reduce the error by >= 2 "
-    "until the floor is reached; (iii) SV keys of the two finest grids agree within K max(eps) S; (iv) x on a node vs x(1+-1e-9): predictions "
+    "K_k eps(g) S + 1e-6 S for adequate grids (eps <= 1e-2), K_0=5, K_1=K_2=300; (ii) a drop of eps by >= 10 must not make the error worse (factor 2); the floor "
+    "of (i),(ii) includes 5x the code's own contracted quadrature-error estimate; (iii) SV keys of the two finest grids agree within K max(eps) S; (iv) x on a node vs x(1+-1e-9): predictions "
     "within 3e-6/3e-6/5e-5 S by order plus 5x the code's own contracted quadrature-error estimate. Distinct = (kind, process, scheme, order, x class, relation); non-trivial = truth non-zero and at least two adequate grids."
 )
 ASSUMPTIONS = ["'adequate grid' is operationalised as measured interpolation error <= 1e-2; coarser grids are not judged",
@@ -81,7 +81,7 @@ def run_case(case):
         rec[(self.esf.x, self.esf.Q2)] = list(elems)
         return elems
 
-    preds, epss, svp, Ss = [], [], [], []
+    preds, epss, svp, Ss, Es = [], [], [], [], []
     probes = dict(collect_elems=0, truth_integrals=0)
     viol, nontrivial, classes = [], set(), set()
     compared, margin, sample = 0, 0.0, None
@@ -97,6 +97,7 @@ def run_case(case):
             res = out[name][0]
             preds.append({o: float(np.sum(np.asarray(v[0]) * fmat)) for o, v in res.orders.items()})
             Ss.append({o: float(np.sum(np.abs(np.asarray(v[0]) * fmat))) for o, v in res.orders.items()})
+            Es.append({o: float(np.sum(np.abs(np.asarray(v[1]) * fmat))) for o, v in res.orders.items()})
             epss.append(interp_error(interp, xg, pdf, x))
     finally:
         cf.Combiner.collect_elems = orig
@@ -138,7 +139,8 @@ def run_case(case):
             nontrivial.add(f"{cellb}|o{o}|{case['xcls']}|bound")
         for i in adequate:
             e, S = errs[i]
-            bound = K[o] * epss[i] * S + FLOOR * S
+            # floor: basis round-off / own quadrature (FLOOR) plus the integration error the code itself reports for this grid
+            bound = K[o] * epss[i] * S + FLOOR * S + 5.0 * Es[i].get(key, 0.0)
             compared += 1
             classes.add("bound")
             mg = e / max(bound, 1e-300)
@@ -153,8 +155,10 @@ def run_case(case):
             if epss[j] <= epss[i] / 10.0 and e1 > 30 * FLOOR * S1:
                 compared += 1
                 classes.add("monotone")
-                if not e2 <= e1 / 2.0 + 3 * FLOOR * S2:
-                    viol.append(dict(sig=f"refinement-no-gain|{case['kind']}|o{o}", what=f"{name} order {o} x={x:.5g}: interpolation error fell {epss[i]:.1e} -> {epss[j]:.1e} but the prediction error only {e1/S1:.2e} -> {e2/S2:.2e} (of S)"))
+                # the error at one x is not proportional to the worst interpolation residual on [x,1) (measured: 20x better grids
+                # improving the prediction by 1.5x only), so only a *deterioration* under refinement is a violation
+                if not e2 <= 2.0 * e1 + 3 * FLOOR * S2 + 5.0 * Es[j].get(key, 0.0):
+                    viol.append(dict(sig=f"refinement-worse|{case['kind']}|o{o}", what=f"{name} order {o} x={x:.5g}: interpolation error fell {epss[i]:.1e} -> {epss[j]:.1e} but the prediction error grew {e1/S1:.2e} -> {e2/S2:.2e} (of S)"))
     # (iii) SV keys on the two finest adequate grids
     if len(adequate) >= 2:
         i, j = adequate[-2], adequate[-1]
